@@ -757,6 +757,7 @@ Examples:
     eqns = []
     used = []
     for eqn in constraints.strip().split(NL):
+        if not eqn.strip(): continue # nothing to simplify in a blank line
         # get least used (prefers no pow), as they are likely to be simpler
         vars = get_variables(eqn, variables)
         vars.sort(key=lambda x: (eqn.count(x), eqn.count(x+'**')))
